@@ -67,6 +67,7 @@ MUTANTS = [
     ("m44", "C08", GEN, "        if remove_file(&self.path).is_ok()\n        {}", "        if self.path.is_empty() && remove_file(&self.path).is_ok()\n        {}"),
     ("m45", "C05", GEN, "                let line = reference.position().line();\n                let column = reference.position().column();", "                let line = reference.position().column();\n                let column = reference.position().line();"),
     ("m46", "C05", GEN, "            reference_updates.num_inserted_references\n        );", "            reference_updates.num_inserted_references + 1\n        );"),
+    ("m47", "C01", "src/config/context.rs", "Ok(loaded_cache) => Some(loaded_cache.next_reference_id),", "Ok(loaded_cache) => Some(loaded_cache.next_reference_id.saturating_sub(1)),"),
     ("m36", "C06", GEN, "                if references_id_result.1 == 0\n                {", "                if references_id_result.1 == 1\n                {"),
 ]
 
